@@ -37,11 +37,13 @@ def main(tier, replay):
         if not replay:
             # 1. L1 => L0: every interleaving of the modelled algorithm is accepted by the monitor
             configs = [dict(Threads="{1, 2}", Rounds=2, MaxCfg=1, Cfgs="CfgsSmall", InitCfg="Init1"),
-                       dict(Threads="{1, 2}", Rounds=1, MaxCfg=2, Cfgs="CfgsResize", InitCfg="Init2")]
+                       dict(Threads="{1, 2}", Rounds=1, MaxCfg=2, Cfgs="CfgsResize", InitCfg="Init2"),
+                       dict(Threads="{1, 2}", Rounds=2, MaxCfg=1, Cfgs="CfgsVar", InitCfg="Init1")]
             if tier == "thorough":
                 configs = [dict(Threads="{1, 2}", Rounds=2, MaxCfg=2, Cfgs="CfgsSmall", InitCfg="Init1"),
                            dict(Threads="{1, 2, 3}", Rounds=1, MaxCfg=1, Cfgs="CfgsSmall", InitCfg="Init2"),
-                           dict(Threads="{1, 2}", Rounds=2, MaxCfg=2, Cfgs="CfgsResize", InitCfg="Init2")]
+                           dict(Threads="{1, 2}", Rounds=2, MaxCfg=2, Cfgs="CfgsResize", InitCfg="Init2"),
+                           dict(Threads="{1, 2}", Rounds=2, MaxCfg=2, Cfgs="CfgsVar", InitCfg="Init1")]
             for c in configs:
                 cfgtxt = ("SPECIFICATION Spec\nCONSTANTS\n  Threads = %(Threads)s\n  Rounds = %(Rounds)s\n  MaxCfg = %(MaxCfg)s\n"
                           "  Cfgs <- %(Cfgs)s\n  InitCfg <- %(InitCfg)s\n  Deref = \"snapshot\"\n  UseMon = TRUE\n"
@@ -62,6 +64,9 @@ def main(tier, replay):
         else:
             g1 = vlib.tlc("flow", "MifGen", "MifGenOps.cfg", workers=8, timeout=1200)
             ops = scheds_of(g1)
+            # the same, over schema changes that keep type and (mostly) limit but change the rest of the schema (strategy ..)
+            g1v = vlib.tlc("flow", "MifGen", "MifGenOps.cfg", workers=8, timeout=1200, consts={"Cfgs": "<-CfgsVar"})
+            opsv = scheds_of(g1v)
             g2 = vlib.tlc("flow", "MifGen", "MifGen.cfg", workers=8, timeout=1200, tlc_seed=seed,
                           consts={"SampleOneIn": 60 if tier == "quick" else 8})
             fine = scheds_of(g2)
@@ -69,10 +74,12 @@ def main(tier, replay):
                 raise Infra("schedule generation produced nothing")
             if tier == "quick":
                 rng.shuffle(ops)
-                ops = ops[:6000]
+                ops = ops[:4500]
+                rng.shuffle(opsv)
+                opsv = opsv[:2500]
                 rng.shuffle(fine)
                 fine = fine[:4000]
-            scs = scenarios(ops, rng, 1, init1, 2, 2) + scenarios(fine, rng, 100001, init1, 2, 2)
+            scs = scenarios(ops, rng, 1, init1, 2, 2) + scenarios(opsv, rng, 50001, init1, 2, 2) + scenarios(fine, rng, 100001, init1, 2, 2)
             # extra random scenarios (3 threads, resize-heavy), completed by the seeded scheduler only
             for i in range(500 if tier == "quick" else 5000):
                 cfgs = []
@@ -80,11 +87,11 @@ def main(tier, replay):
                     if rng.random() < 0.35:
                         cfgs.append({"mif": False, "M": 0, "how": rng.choice(["tb", "del", "exempt"])})
                     else:
-                        cfgs.append({"mif": True, "M": rng.randint(0, 3)})
+                        cfgs.append({"mif": True, "M": rng.randint(0, 3), "v": rng.choice([0, 0, 1, 2])})
                 scs.append({"id": 200001 + i, "init": {"mif": True, "M": rng.randint(1, 2)}, "threads": 3, "rounds": 2, "cfgs": cfgs,
                             "hist": [], "schedule": [], "seed": rng.randint(1, 10 ** 9), "other": i % 4 == 0})
-            states += g1.distinct + g2.distinct
-            trans += g1.generated + g2.generated
+            states += g1.distinct + g2.distinct + g1v.distinct
+            trans += g1.generated + g2.generated + g1v.generated
         sc_p = os.path.join(wd, "sc.ndjson")
         tr_p = os.path.join(wd, "tr.ndjson")
         vlib.write_ndjson(sc_p, scs)
